@@ -298,7 +298,7 @@ pub fn run(cx: &Cx) -> Report {
     }
     let k = known.clone();
     MAX_SHRINK_ITERS.store(250, std::sync::atomic::Ordering::Relaxed);
-    let histories = cx.tier.pick(2400u64, 80_000);
+    let histories = cx.tier.pick(2400u64, 40_000);
     rep.absorb(par_proptest(
         cx,
         "histories",
